@@ -29,3 +29,24 @@ package core
 //@ func UserAgent
 //@   prop C20
 //@   modifies nothing
+
+// The tables of reserved TLDs / addresses contain every entry the strict URL check relies on
+// (RFC 2606 and draft-chapin-rfc2606bis; "" is the TLD of a host written with a trailing dot).
+//@ func init
+//@   prop C20
+//@   call store.reservedTLDs #1 requires [reserved-tlds-complete]
+//@        (exists k int :: 0 <= k && k < len(arg(1)) && arg(1)[k] == "")
+//@     && (exists k int :: 0 <= k && k < len(arg(1)) && arg(1)[k] == "corp")
+//@     && (exists k int :: 0 <= k && k < len(arg(1)) && arg(1)[k] == "example")
+//@     && (exists k int :: 0 <= k && k < len(arg(1)) && arg(1)[k] == "home")
+//@     && (exists k int :: 0 <= k && k < len(arg(1)) && arg(1)[k] == "host")
+//@     && (exists k int :: 0 <= k && k < len(arg(1)) && arg(1)[k] == "invalid")
+//@     && (exists k int :: 0 <= k && k < len(arg(1)) && arg(1)[k] == "lan")
+//@     && (exists k int :: 0 <= k && k < len(arg(1)) && arg(1)[k] == "local")
+//@     && (exists k int :: 0 <= k && k < len(arg(1)) && arg(1)[k] == "localdomain")
+//@     && (exists k int :: 0 <= k && k < len(arg(1)) && arg(1)[k] == "localhost")
+//@     && (exists k int :: 0 <= k && k < len(arg(1)) && arg(1)[k] == "test")
+//@   call store.reservedAddresses #1 requires [reserved-addresses-complete]
+//@        (exists k int :: 0 <= k && k < len(arg(1)) && arg(1)[k] == "example.com")
+//@     && (exists k int :: 0 <= k && k < len(arg(1)) && arg(1)[k] == "example.net")
+//@     && (exists k int :: 0 <= k && k < len(arg(1)) && arg(1)[k] == "example.org")
